@@ -172,6 +172,16 @@ func DrawXRecord(l *core.Lane, long bool) *XRecord {
 	uintp := func(ns, name, path string, max int, p int) {
 		if l.Intn(100) >= 100-p {
 			v := l.Intn(max + 1)
+			if x := XDateExtra; x != nil && x.Chance(1, 5) {
+				// the largest value the field's type holds, where the format defines it: MeteringMode
+				// 255 is "other"; dimensions and ids are 32-bit
+				switch name {
+				case "MeteringMode":
+					v = 255
+				case "PixelXDimension", "PixelYDimension", "LensID":
+					v = 1<<32 - 1
+				}
+			}
 			add(&XProp{NS: ns, Name: name, Val: strconv.Itoa(v), Path: path, Want: strconv.Itoa(v)})
 		}
 	}
